@@ -188,9 +188,114 @@ func c06RefValue(e *ast.Node) string {
 	return rr.Class + ":" + string(rr.Out)
 }
 
+// c06Quick evaluates a tree of literals, unary and binary operators directly
+// with refjq's operator functions (no program around it): used to search for
+// operand values that tell the groupings of an operator sequence apart.
+func c06Quick(n *ast.Node) (out string) {
+	defer func() {
+		if r := recover(); r != nil {
+			switch r.(type) {
+			case ref.RuntimeErr:
+				out = "runtime-error"
+			default:
+				out = "?"
+			}
+		}
+	}()
+	var ev func(n *ast.Node) ref.V
+	ev = func(n *ast.Node) ref.V {
+		switch n.K {
+		case "num":
+			f, _ := jsonx.NearestDouble(string(n.S))
+			return ref.Num(f)
+		case "str":
+			return ref.Str(string(n.S))
+		case "true":
+			return ref.Bool(true)
+		case "false":
+			return ref.Bool(false)
+		case "null":
+			return ref.Null
+		case "un":
+			return ref.Unary(string(n.S), ev(n.C[0]))
+		case "bin":
+			op := string(n.S)
+			if op == "&&" || op == "||" {
+				l, _ := ref.Truthy(ev(n.C[0]))
+				if (op == "&&" && !l) || (op == "||" && l) {
+					return ref.Bool(l)
+				}
+				r, _ := ref.Truthy(ev(n.C[1]))
+				return ref.Bool(r)
+			}
+			return ref.BinOp(op, ev(n.C[0]), ev(n.C[1]))
+		}
+		panic(ref.Unspec{Reason: "quick"})
+	}
+	v := ev(n)
+	return fmt.Sprintf("%v|%v|%v|%q", v.K, v.B, v.N, v.S)
+}
+
+var c06Pool = []*ast.Node{ast.Num("0"), ast.Num("1"), ast.Num("2"), ast.Num("5"), ast.True(), ast.False(), ast.Str("ab"), ast.Str("b"), ast.Str("^$"), ast.Str(""), ast.Null(), ast.Num("0.5")}
+
+// c06FindOperands searches the pool for operand tuples under which the tree
+// shapes of the operator sequence do not all evaluate alike (preferring tuples
+// where no shape is an error).
+func c06FindOperands(ops []string, want int) [][]*ast.Node {
+	n := len(ops) + 1
+	var found, foundErr [][]*ast.Node
+	total := 1
+	for k := 0; k < n; k++ {
+		total *= len(c06Pool)
+	}
+	stride := 1
+	budget := 1728
+	if n >= 4 {
+		budget = 500
+	}
+	if total > budget {
+		stride = total/budget | 1
+	}
+	for code := 0; code < total && len(found) < want; code += stride {
+		leaves := make([]*ast.Node, n)
+		c := code
+		for k := 0; k < n; k++ {
+			leaves[k] = c06Pool[c%len(c06Pool)]
+			c /= len(c06Pool)
+		}
+		vals := map[string]bool{}
+		hasErr := false
+		for _, tr := range shapes(ops, leaves) {
+			v := c06Quick(tr)
+			if v == "?" {
+				vals = nil
+				break
+			}
+			if v == "runtime-error" {
+				hasErr = true
+			}
+			vals[v] = true
+		}
+		if len(vals) >= 2 {
+			if hasErr {
+				if len(foundErr) < want {
+					foundErr = append(foundErr, leaves)
+				}
+			} else {
+				found = append(found, leaves)
+			}
+		}
+	}
+	for len(found) < want && len(foundErr) > 0 {
+		found = append(found, foundErr[0])
+		foundErr = foundErr[1:]
+	}
+	return found
+}
+
 func TestC06(t *testing.T) {
 	rec := start(t, "C06", "exploration",
-		"exhaustive: every ordered pair and triple of the 15 binary operators (levels 2-5 of table 3.9) over two operand sets, in every tree shape (2 resp. 5); every prefix operator against every binary operator and against member/index/call; `is`; assignment chains. Every pair also in every syntactic position (print argument, condition, call argument, array element, index, return value, rule pattern, for-in iterable, object value, while condition). Random: expression trees to depth 6 (8 thorough), each in a random position. Each intended tree T is rendered with minimal, full and redundant parentheses; all renderings must behave alike and equal refjq(T). Non-trivial = discriminating: some other grouping of the same token sequence evaluates differently in refjq. distinct = distinct minimal rendering.")
+		"exhaustive: every ordered pair and triple of the 15 binary operators (levels 2-5 of table 3.9) over four fixed operand sets plus up to two operand tuples found by search (values under which the groupings of exactly that sequence differ), in every tree shape (2 resp. 5); every prefix operator against every binary operator and against member/index/call; `is`; assignment chains. Every pair also in every syntactic position (print argument, condition, call argument, array element, index, return value, rule pattern, for-in iterable, object value, while condition). Random: expression trees to depth 6 (8 thorough), each in a random position. Each intended tree T is rendered with minimal, full and redundant parentheses; all renderings must behave alike and equal refjq(T). Non-trivial = discriminating: some other grouping of the same token sequence evaluates differently in refjq. distinct = distinct minimal rendering.")
 	defer rec.Finish()
 	rec.Assume("refjq evaluates the harness AST, i.e. the intended tree, independently of jqawk's parser")
 	rec.Replayer("grouping", func(raw json.RawMessage) error {
@@ -228,6 +333,9 @@ func TestC06(t *testing.T) {
 	sets := [][]*ast.Node{
 		{ast.Id("n1"), ast.Id("n2"), ast.Id("n3"), ast.Id("n4")},
 		{ast.Id("s1"), ast.Id("n2"), ast.Id("s2"), ast.Num("0")},
+		// all strings, so that ~ and !~ have patterns on their right in every grouping
+		{ast.Id("s1"), ast.Id("s2"), ast.Str("a"), ast.Str("^$")},
+		{ast.Id("b1"), ast.Id("s2"), ast.Id("n3"), ast.Id("s1")},
 	}
 	for _, n := range []int{2, 3} {
 		var rec2 func(ops []string)
@@ -242,13 +350,21 @@ func TestC06(t *testing.T) {
 			if count%nshards != shard || rec.ViolationCount() >= 5 {
 				return
 			}
+			anyDisc := false
 			for si, set := range sets {
+				if n == 3 && si >= 2 && !(strings.Contains(strings.Join(ops, " "), "~")) {
+					continue // the string sets are for the match operators
+				}
+				if n == 3 && si == 1 && !evThorough() {
+					continue // quick tier: one fixed set and one searched tuple per triple
+				}
 				trees := shapes(ops, set[:n+1])
 				vals := map[string]bool{}
 				for _, tr := range trees {
 					vals[c06RefValue(tr)] = true
 				}
 				disc := len(vals) >= 2
+				anyDisc = anyDisc || disc
 				for _, tr := range trees {
 					runCase(&C06Case{Expr: tr, Tag: fmt.Sprintf("ops %v set %d", ops, si)}, disc, fmt.Sprintf("arity-%d", n))
 					if n == 2 && si == 0 {
@@ -259,21 +375,46 @@ func TestC06(t *testing.T) {
 					}
 				}
 			}
+			// operand values found by search: they tell the groupings of exactly this sequence apart
+			nsearch := 2
+			if n == 3 && !evThorough() {
+				nsearch = 1
+			}
+			for fi, leaves := range c06FindOperands(ops, nsearch) {
+				anyDisc = true
+				for _, tr := range shapes(ops, leaves) {
+					runCase(&C06Case{Expr: tr, Tag: fmt.Sprintf("ops %v searched operands %d", ops, fi)}, true, fmt.Sprintf("arity-%d", n), "searched-operands")
+				}
+			}
+			if !anyDisc {
+				// no operand set tells the groupings of this operator sequence apart: a blind spot, made visible
+				rec.Label(fmt.Sprintf("no-discriminating-operands-arity-%d", n))
+				if n == 2 {
+					rec.Label("no-discriminating-operands:" + strings.Join(ops, " "))
+				}
+			}
 		}
 		rec2(nil)
 	}
 	rec.Exhaustive("every ordered pair and triple of the 15 binary operators x 2 operand sets x every tree shape")
 
 	// prefix operators against binary operators and postfix forms
-	a, b := ast.Id("n1"), ast.Id("n2")
 	for _, u := range []string{"!", "-", "+"} {
 		for _, op := range gen.AllBin {
-			for _, tr := range []*ast.Node{
-				ast.Bin(op, ast.Un(u, a), b), ast.Un(u, ast.Bin(op, a, b)),
-				ast.Bin(op, a, ast.Un(u, b)),
-			} {
+			anyDisc := false
+			for _, pair := range [][2]*ast.Node{{ast.Id("n1"), ast.Id("n2")}, {ast.Id("s1"), ast.Id("s2")}, {ast.Id("s2"), ast.Str("^$")}, {ast.Num("0"), ast.Str("a")}, {ast.Id("b1"), ast.Str("1")}} {
+				a, b := pair[0], pair[1]
 				alt := map[string]bool{c06RefValue(ast.Bin(op, ast.Un(u, a), b)): true, c06RefValue(ast.Un(u, ast.Bin(op, a, b))): true}
-				runCase(&C06Case{Expr: tr, Tag: "prefix " + u + " vs " + op}, len(alt) >= 2, "prefix-vs-binary")
+				anyDisc = anyDisc || len(alt) >= 2
+				for _, tr := range []*ast.Node{
+					ast.Bin(op, ast.Un(u, a), b), ast.Un(u, ast.Bin(op, a, b)),
+					ast.Bin(op, a, ast.Un(u, b)),
+				} {
+					runCase(&C06Case{Expr: tr, Tag: "prefix " + u + " vs " + op}, len(alt) >= 2, "prefix-vs-binary")
+				}
+			}
+			if !anyDisc {
+				rec.Label("no-discriminating-operands:prefix " + u + " vs " + op)
 			}
 		}
 		for _, tr := range []*ast.Node{
